@@ -261,9 +261,137 @@ func (p *pathRun) zeroMod(E, m *smt.Term) *smt.Term {
 				alts = append(alts, c.Eq(c.Mod(p.polyTerm(quo), m), c.IntC64(0)))
 			}
 			p.axiom("zero-divisor-lemma", c.Eq(res, c.Or(alts...)))
+		} else if u, w, bq, ok := binomialFactor(q, modC); ok {
+			// q = (u - w) * bq over Z_m, m prime: q ≡ 0 iff u ≡ w or bq ≡ 0
+			key := fmt.Sprintf("bf:%d", res.ID)
+			if p.counters[key] == 0 {
+				p.counters[key] = 1
+				p.axiom("zero-divisor-lemma", c.Eq(res, c.Or(p.zeroMod(c.Sub(u, w), m), p.zeroMod(p.polyTerm(bq), m))))
+			}
 		}
 	}
 	return res
+}
+
+// binomialFactor looks for two atoms u, w with (u - w) | q over Z_mod (q vanishes when w
+// is replaced by u) and returns the quotient, computed by synthetic division in u.
+func binomialFactor(q poly, mod *big.Int) (u, w *smt.Term, quo poly, ok bool) {
+	if len(q) < 2 || len(q) > 60 {
+		return
+	}
+	atomSet := map[int]*smt.Term{}
+	for _, e := range q {
+		for _, a := range e.atoms {
+			atomSet[a.ID] = a
+		}
+	}
+	if len(atomSet) > 12 {
+		return
+	}
+	var atoms []*smt.Term
+	for _, a := range atomSet {
+		atoms = append(atoms, a)
+	}
+	sort.Slice(atoms, func(i, j int) bool { return atoms[i].ID < atoms[j].ID })
+	for i := 0; i < len(atoms); i++ {
+		for j := 0; j < len(atoms); j++ {
+			if i == j {
+				continue
+			}
+			u, w = atoms[i], atoms[j]
+			// substitute w := u
+			sub := poly{}
+			for _, e := range q {
+				as := make([]*smt.Term, len(e.atoms))
+				for k, a := range e.atoms {
+					if a == w {
+						a = u
+					}
+					as[k] = a
+				}
+				sort.SliceStable(as, func(x, y int) bool { return as[x].ID < as[y].ID })
+				sub.add(e.coef, as, mod)
+			}
+			if len(sub) != 0 {
+				continue
+			}
+			// q = sum_k u^k A_k; divide by (u - w): b_{n-1} = A_n, b_{k-1} = A_k + w*b_k
+			deg := 0
+			A := map[int]poly{}
+			for _, e := range q {
+				k := 0
+				var rest []*smt.Term
+				for _, a := range e.atoms {
+					if a == u {
+						k++
+					} else {
+						rest = append(rest, a)
+					}
+				}
+				if A[k] == nil {
+					A[k] = poly{}
+				}
+				A[k].add(e.coef, rest, mod)
+				if k > deg {
+					deg = k
+				}
+			}
+			if deg == 0 {
+				continue
+			}
+			wp := poly{}
+			wp.add(big.NewInt(1), []*smt.Term{w}, mod)
+			b := poly{}
+			quo = poly{}
+			fine := true
+			for k := deg; k >= 1; k-- {
+				// b = A_k + w*b
+				nb, ok2 := polyMul(wp, b, mod)
+				if !ok2 {
+					fine = false
+					break
+				}
+				for _, e := range A[k] {
+					nb.add(e.coef, e.atoms, mod)
+				}
+				b = nb
+				// quotient coefficient of u^(k-1)
+				for _, e := range b {
+					as := append([]*smt.Term{}, e.atoms...)
+					for x := 0; x < k-1; x++ {
+						as = append(as, u)
+					}
+					sort.SliceStable(as, func(x, y int) bool { return as[x].ID < as[y].ID })
+					quo.add(e.coef, as, mod)
+				}
+			}
+			if !fine || len(quo) == 0 {
+				continue
+			}
+			if len(quo) == 1 {
+				constant := false
+				for _, e := range quo {
+					constant = len(e.atoms) == 0
+				}
+				if constant {
+					continue // q is a unit multiple of (u - w) itself: nothing to split
+				}
+			}
+			// remainder A_0 + w*b must vanish
+			rem, ok2 := polyMul(wp, b, mod)
+			if !ok2 {
+				continue
+			}
+			for _, e := range A[0] {
+				rem.add(e.coef, e.atoms, mod)
+			}
+			if len(rem) != 0 {
+				continue
+			}
+			return u, w, quo, true
+		}
+	}
+	return nil, nil, nil, false
 }
 
 // canonMod returns a canonical term for E mod m (m a numeral): the polynomial
